@@ -225,6 +225,9 @@ func runQuiescent(c *Ctx, prop string) {
 		default:
 			o.CostMode = []string{"key", "one", "random"}[i%3]
 			o.FinalDrain = []string{"del", "clear", "expire", ""}[i%4]
+			if i%3 != 1 {
+				o.Mix["clear"] = 1 // Clear concurrent with the writers (the statement's histories include Clear)
+			}
 		}
 		// capacities: in units of the per-key cost scale
 		unit := int64(7)
